@@ -219,6 +219,10 @@ func RunNil(c *core.Ctx) {
 					c.Fail("NIL.msgmut", con, "the mutator does not use its receiver: nothing can be stored", pos(c, g, fd.Pos()), src)
 					continue
 				}
+				if _, isPtr := ro.Type().(*types.Pointer); !isPtr {
+					c.Fail("NIL.msgmut", con, name+" has a value receiver: it stores into a copy of the message and the caller's message is unchanged", pos(c, g, fd.Pos()), src)
+					continue
+				}
 				bad := ""
 				var at ast.Node
 				ast.Inspect(fd.Body, func(x ast.Node) bool {
